@@ -243,6 +243,22 @@ def r3(ctx):
         yield VIOL("C06-R3", "from_str/len-field", "stored length is %s, not len(raw) + 4" % (lf_str(lf) if lf else "?"), where=loc(ag[2]["span"]))
     else:
         yield PASS("C06-R3", "from_str/len-field", "len = raw.len() + 4", [loc(ag[2]["span"])])
+    # the buffer starts zeroed: to_kdate keys the HMAC with the WHOLE buffer, which equals keying with "AWS4"+secret only
+    # because HMAC pads a short key with zero bytes itself
+    bl = root_local(b, fields["prefixed_key"])
+    inits = [d for d in b.defs().get(bl, []) if d["kind"] == "assign" and not d.get("partial")]
+    zero = [d for d in inits if d["stmt"]["rv"]["k"] == "repeat" and const_value(op_const(d["stmt"]["rv"]["op"]) or {}) == 0]
+    if bl is None or len(inits) != 1 or not zero:
+        yield VIOL("C06-R3", "from_str/buffer-not-zeroed", "the key buffer is not created as [0; M]: bytes after the secret are not zero, so keying the HMAC with the whole buffer is no longer keying it with \"AWS4\" + secret", where=loc(ag[2]["span"]))
+    else:
+        yield PASS("C06-R3", "from_str/buffer-zeroed", "prefixed_key starts as [0; M]", [loc(zero[0]["stmt"]["span"])])
+    # every secret that fits is accepted: what is known on the way to Ok(..) is no more than M >= 4 and len + 4 <= M
+    accept = [lf_add(lf_const(4), {"M": 1, 1: 0}, -1), lf_add({"len(p%d)" % raw: 1, 1: 4}, {"M": 1, 1: 0}, -1)]
+    ck_ = lin.checked_facts()
+    ckn_ = {lf_norm(f_) for f_ in ck_}
+    narrow = [f_ for f_ in lin.facts_at(ag[0]) if lf_norm(f_) not in ckn_ and not entails(accept + ck_, f_)]
+    if narrow:
+        yield VIOL("C06-R3", "from_str/capacity-narrowed", "Ok(..) needs more than M >= 4 and len + 4 <= M (%s): a secret that fits the buffer is refused" % [lf_str(f_) + " <= 0" for f_ in narrow], where=b.span_of_block(ag[0]))
     errs = result_aggs(b, "Err")
     e = one(errs, "Err(KeyTooLongError)")
     # Ok is reachable exactly when M >= 4 and len <= M - 4
